@@ -13,11 +13,11 @@ from cutplace import errors, validio
 PROPERTY_ID = "C08"
 RULE = (
     "One shared Cid object (delimited; key Text, val Choice, grp Text; IsUnique key; DistinctCount val <= 2; "
-    "DistinctCount grp == 1) and an alphabet of 19 operations: read clean data, read data with a duplicate key, "
+    "DistinctCount grp == 1) and an alphabet of 21 operations: read clean data, read data with a duplicate key, "
     "read data with three distinct values, read and abandon after 1 / 2 rows, read fully without close(), read in "
     "'raise' mode ending in a field error, read in 'continue' mode, validate with limit 0 / 1 / none, write rows "
     "without close, write and close, write a duplicate, abandon a read and keep it open, leave a reader unclosed and "
-    "keep it, read / write while those kept runs are closed in the middle - over data sets that share key values and distinct-count "
+    "keep it, read / write while those kept runs are closed in the middle, request the rows of a data set but consume them only after another complete run - over data sets that share key values and distinct-count "
     "values. Every sequence of up to 4 (thorough: 5) operations is executed exhaustively; Hypothesis adds "
     "sequences of up to 30 operations with generated data (thorough: more). Oracle (differential): the outcome of "
     "each operation on the shared CID (items, rejections as type/text/row/column/see-also row, final exception) "
@@ -31,7 +31,7 @@ ASSUMPTIONS = [
     "the outcome of an operation on a fresh CID is deterministic (checked: computed twice)",
 ]
 EXHAUSTIVE = True
-EXHAUSTIVE_SCOPE = "all sequences of 1-4 (thorough: 1-5) operations over the 19-operation alphabet"
+EXHAUSTIVE_SCOPE = "all sequences of 1-4 (thorough: 1-5) operations over the 21-operation alphabet"
 
 CID_ROWS = [
     ["D", "Format", "Delimited"],
@@ -96,6 +96,19 @@ def _read(cid, rows, mode="yield", take=None, until=None, held=None, keep=False,
             except Exception as error:
                 ended = ["close-error"] + _describe(error)
     return {"items": out, "ended": ended}
+
+
+def _deferred_read(cid, rows, rows_between):
+    generator = cutplace.rows(cid, io.StringIO(_text(rows), newline=""), on_error="yield")
+    between = _read(cid, rows_between)
+    out = []
+    ended = None
+    try:
+        for item in generator:
+            out.append(_describe(item))
+    except Exception as error:
+        ended = _describe(error)
+    return {"items": out, "ended": ended, "between": between}
 
 
 def _read_noclose(cid, rows, held=None, keep=False):
@@ -164,6 +177,9 @@ OPS = {
     "write-dup": lambda cid, held: _write(cid, DUP, True),
     # an earlier abandoned / never closed run is finalized (garbage collected, closed) in the middle of this run
     "lateclose-read-dup": lambda cid, held: _read(cid, DUP, held=held, late_close_after=2),
+    # the rows of a data set are requested, another complete run happens, only then are they consumed
+    "deferred-read-dup": lambda cid, held: _deferred_read(cid, DUP, CLEAN),
+    "deferred-read-three": lambda cid, held: _deferred_read(cid, THREE, OTHER_GROUP),
     "lateclose-write-dup": lambda cid, held: _write(cid, DUP, True, held=held, late_close_after=2),
 }
 OP_NAMES = sorted(OPS)
